@@ -89,7 +89,9 @@ end PyKey
 open PyKey in
 /-- the sparse state with Python objects in the dictionaries -/
 structure KState where
-  i2l : List (Nat × PyKey)     -- keys: the Python ints `idx`
+  i2l : List (Nat × PyKey)     -- keys: the indices, by value (after `_relabel` with an alias key such as `0.0` the
+                               -- stored key object may be that alias: `idx = self._label_to_index.pop(old, old)`;
+                               -- every lookup is by `==`, so only the value matters)
   l2i : List (PyKey × Nat)
   stop : Nat
 
@@ -208,5 +210,93 @@ def step (k : KState) : KOp → KState × Bool
   | .pop => if k.stop = 0 then (k, false) else (k.pop.1, true)
   | .clear => ({ i2l := [], l2i := [], stop := 0 }, true)
   | .relabelInts => ({ k with i2l := [], l2i := [] }, true)
+
+end KState
+
+/-! ### `_relabel(mapping)` over objects: `iter_safe_relabels` / `resolve_label_conflict` with dict lookups by `==` -/
+
+namespace KState
+open PyKey
+
+abbrev KDict := List (PyKey × PyKey)
+
+/-- `d[k] = v` on a dict of objects: an existing equal key keeps its (old) key object -/
+def kdictSet (d : KDict) (k v : PyKey) : KDict :=
+  match d with
+  | [] => [(k, v)]
+  | (k', v') :: t => if pyEq k' k then (k', v) :: t else (k', v') :: kdictSet t k v
+
+/-- `k in d` -/
+def kdictHas (d : KDict) (k : PyKey) : Bool := d.any (fun p => pyEq p.1 k)
+
+/-- `new_labels = {new: old for old, new in mapping.items()}` -/
+def knewLabels (m : KDict) : KDict := m.foldl (fun d p => kdictSet d p.2 p.1) []
+
+/-- `lbl = next(counter); while lbl in new_labels or lbl in old_labels or lbl in existing: lbl = next(counter)` -/
+def kfresh (k : KState) (m : KDict) : Nat → Nat → Nat
+  | 0, c => c
+  | f+1, c =>
+    if kdictHas (knewLabels m) (.int c) || kdictHas m (.int c) || k.count (.int c) then kfresh k m f (c+1) else c
+
+/-- loop body of `resolve_label_conflict` -/
+def krstep (k : KState) (m : KDict) (acc : Nat × KDict × KDict) (p : PyKey × PyKey) : Nat × KDict × KDict :=
+  if pyEq p.1 p.2 then acc
+  else if kdictHas (knewLabels m) p.1 || kdictHas m p.2 then
+    (kfresh k m (k.stop + 2 * m.length + 2) acc.1 + 1,
+     kdictSet acc.2.1 p.1 (.int (kfresh k m (k.stop + 2 * m.length + 2) acc.1)),
+     kdictSet acc.2.2 (.int (kfresh k m (k.stop + 2 * m.length + 2) acc.1)) p.2)
+  else (acc.1, kdictSet acc.2.1 p.1 p.2, acc.2.2)
+
+/-- `iter_safe_relabels(mapping, self)`; `none` = ValueError -/
+def ksafeRelabels (k : KState) (m : KDict) : Option (List KDict) :=
+  if (knewLabels m).length < m.length then none else
+  if (knewLabels m).any (fun p => k.count p.1 && !(kdictHas m p.1)) then none else
+  if m.any (fun p => kdictHas (knewLabels m) p.1) then
+    some [(m.foldl (krstep k m) (2 * m.length, [], [])).2.1, (m.foldl (krstep k m) (2 * m.length, [], [])).2.2]
+  else some [m]
+
+/-- the inner loop of `_relabel` over one sub-mapping -/
+def kseq (k : KState) (sub : KDict) : KState :=
+  sub.foldl (fun k p => if pyEq p.1 p.2 || !(k.count p.1) then k else k.relabelOne p.1 p.2) k
+
+/-- `_relabel(mapping)` over objects -/
+def relabel (k : KState) (m : KDict) : Option KState :=
+  match k.ksafeRelabels m with
+  | none => none
+  | some subs => some (subs.foldl kseq k)
+
+/-- canonical form of a mapping -/
+def cc (p : PyKey × PyKey) : Label × Label := (canon p.1, canon p.2)
+
+end KState
+
+namespace KState
+open PyKey
+
+/-- `_remove(v)` over objects: `index`, the chain mapping `{at(i): at(i+1)}`, `_pop`, `_relabel` -/
+def remove (k : KState) (v : PyKey) : Option KState :=
+  if !(k.count v) then none else
+  (k.pop.1).relabel ((List.range (k.stop - 1 - k.idxOf v)).map fun j =>
+    (k.labelAt (k.idxOf v + j), k.labelAt (k.idxOf v + j + 1)))
+
+/-- all mutators over objects -/
+inductive KOp2 where
+  | base (op : KOp)
+  | relabel (m : KDict)
+  | remove (v : PyKey)
+
+def KOp2.toOp : KOp2 → VState.Op
+  | .base op => op.toOp
+  | .relabel m => .relabel (m.map cc)
+  | .remove v => .remove (canon v)
+
+def step2 (k : KState) : KOp2 → KState × Bool
+  | .base op => k.step op
+  | .relabel m => match k.relabel m with
+    | some k' => (k', true)
+    | none => (k, false)
+  | .remove v => match k.remove v with
+    | some k' => (k', true)
+    | none => (k, false)
 
 end KState
